@@ -25,6 +25,8 @@ class NS(Model):
 class LazyNS(Model):
     """Namespace whose attributes are resolved on first use."""
 
+    _allow_private = True  # a module's private helpers are reachable through the module like any other name
+
     def __init__(self, getter):
         object.__setattr__(self, "_getter", getter)
         object.__setattr__(self, "_cache", {})
@@ -95,7 +97,7 @@ def stdlib_table():
             "textwrap": {"dedent": __import__("textwrap").dedent, "indent": __import__("textwrap").indent},
             "types": {"MappingProxyType": (lambda d: dict(d)), "SimpleNamespace": NS},
             "enum": {"auto": (lambda: __import__("cgstatic.userclass", fromlist=["x"]).AUTO), "Enum": __import__("cgstatic.userclass", fromlist=["x"]).EnumBase("Enum"), "StrEnum": __import__("cgstatic.userclass", fromlist=["x"]).EnumBase("StrEnum"), "IntEnum": __import__("cgstatic.userclass", fromlist=["x"]).EnumBase("IntEnum"), "unique": (lambda c: c)},
-            "collections": {"defaultdict": m_defaultdict, "deque": m_deque, "Counter": m_counter, "OrderedDict": dict, "namedtuple": __import__("cgstatic.userclass", fromlist=["x"]).namedtuple_factory,
+            "collections": {"defaultdict": m_defaultdict, "deque": m_deque, "Counter": m_counter, "OrderedDict": __import__("collections").OrderedDict, "namedtuple": __import__("cgstatic.userclass", fromlist=["x"]).namedtuple_factory,
                             "ChainMap": (lambda *maps: {k: v for m_ in reversed(maps) for k, v in m_.items()})},
             "typing": {n: object for n in ("Any", "Optional", "Iterable", "Iterator", "Sequence", "Mapping", "Dict", "List", "Set", "Tuple", "Callable", "Union", "FrozenSet", "Generator", "Hashable", "ClassVar", "Final")},
             "dataclasses": {"field": __import__("cgstatic.userclass", fromlist=["x"]).dataclass_field, "dataclass": (lambda *a, **k: (a[0] if a else (lambda c: c))), "replace": m_dataclass_replace, "InitVar": object, "KW_ONLY": object,
@@ -256,10 +258,12 @@ def bind_module_constants(tree, env):
     for st in tree.body:
         if (isinstance(st, ast.Expr) and isinstance(st.value, ast.Call) and isinstance(st.value.func, ast.Attribute) and isinstance(st.value.func.value, ast.Name)
                 and st.value.func.attr in ("update", "append", "extend", "add", "setdefault", "insert", "discard", "remove", "pop", "clear", "sort", "reverse")) \
-                or (isinstance(st, ast.AugAssign) and isinstance(st.target, ast.Name)):
-            # a module-level statement that completes a table after it was created (`_ALONE.update(...)`, `TYPES += [...]`): run once,
-            # in source order, as soon as the table exists
-            tname = st.value.func.value.id if isinstance(st, ast.Expr) else st.target.id
+                or (isinstance(st, ast.AugAssign) and isinstance(st.target, ast.Name)) \
+                or (isinstance(st, ast.Assign) and len(st.targets) == 1 and isinstance(st.targets[0], ast.Attribute) and isinstance(st.targets[0].value, ast.Name)):
+            # a module-level statement that completes a table after it was created (`_ALONE.update(...)`, `TYPES += [...]`), or gives a
+            # class of the module an attribute once the class exists (`Encoder._TABLE = {...}`): run once, in source order, as soon as
+            # the table / class exists
+            tname = st.value.func.value.id if isinstance(st, ast.Expr) else st.target.id if isinstance(st, ast.AugAssign) else st.targets[0].value.id
             if id(st) in done or tname not in env:
                 continue
             try:
@@ -1058,7 +1062,7 @@ class Package:
             "reduce": functools.reduce, "combinations": itertools.combinations, "product": itertools.product,
             "defaultdict": m_defaultdict, "Queue": MQueue, "bin": bin, "generic_flop": self.generic_flop,
             "chain": MChain(), "itertools": MItertools(), "math": MMath(), "functools": MFunctools(), "permutations": itertools.permutations,
-            "islice": itertools.islice, "zip_longest": itertools.zip_longest, "deque": m_deque, "Counter": m_counter, "OrderedDict": dict,
+            "islice": itertools.islice, "zip_longest": itertools.zip_longest, "deque": m_deque, "Counter": m_counter, "OrderedDict": __import__("collections").OrderedDict,
         })
         self._bind_imports(rel, env)
         from .models import MCNF, MIDPool, MSolver
